@@ -477,11 +477,16 @@ def farkas_system(g, rng):
         for v in sh:
             co[v] = co.get(v, 0) - w * c0.get(v, 0)
         const -= w * k0
-    B.append((co, const - rng.choice([1, 1, 2]), 1))
+    # strict rows: with at least one of them a weighted sum of exactly 0 is already absurd (0 < 0): zero slack
+    strict = set(i for i in range(len(A) + len(B) + 1) if rng.random() < 0.25) if rng.random() < 0.5 else set()
+    B.append((co, const - (0 if strict and rng.random() < 0.7 else rng.choice([1, 1, 2])), 1))
     cmds, na, nb = [], [], []
     for i, (c0, k0, _) in enumerate(A + B):
         t = lin(c0, k0)
-        f = tb.app(">=", [t, tb.num(0, S)]) if rng.random() < 0.7 else tb.app("<=", [tb.num(0, S), t])
+        if i in strict:
+            f = tb.app(">", [t, tb.num(0, S)]) if rng.random() < 0.7 else tb.app("<", [tb.num(0, S), t])
+        else:
+            f = tb.app(">=", [t, tb.num(0, S)]) if rng.random() < 0.7 else tb.app("<=", [tb.num(0, S), t])
         nm = ("a%d" if i < len(A) else "b%d") % i
         (na if i < len(A) else nb).append(nm)
         cmds.append({"c": "assert", "t": f, "nm": nm, "inner": []})
